@@ -389,6 +389,17 @@ def check_hv(case):
 # ------------------------------------------------------------------ strategies
 @st.composite
 def st_values(draw, m, nmax=8):
+    vals = draw(_st_values_raw(m, nmax))
+    if len(vals) >= 3 and draw(st.sampled_from([False, False, True])):
+        # an exact duplicate of another row (tied designs; a duplicated Pareto-optimal value with a design below it)
+        i, j = draw(st.integers(0, len(vals) - 1)), draw(st.integers(0, len(vals) - 1))
+        if i != j:
+            vals[i] = list(vals[j])
+    return vals
+
+
+@st.composite
+def _st_values_raw(draw, m, nmax=8):
     n = draw(st.integers(2, nmax))
     style = draw(st.sampled_from(["lattice", "cont", "cont", "near", "int"]))
     if style == "int":
